@@ -227,9 +227,9 @@ fn pp_actor<'a>(ty: &'a Type, recs: &'a BTreeSet<&'a str>) -> RcDoc<'a> {
         TypeInner::Service(_) => pp_ty(ty),
         TypeInner::Var(id) => {
             if recs.contains(&*id.clone()) {
-                str(id).append(".getType()")
+                ident(id).append(".getType()")
             } else {
-                str(id)
+                ident(id)
             }
         }
         TypeInner::Class(_, t) => pp_actor(t, recs),
